@@ -58,9 +58,10 @@ def check_config(cfg, w, rep):
     for p in R.index_inserts:
         lf = prog.fns[p]
         for b, blk, t in prog.call_sites(lf):
-            for a in t.args:
-                if a.is_const and a.fn and a.fn["path"] in prog.fns:
-                    now_fns.add(a.fn["path"])
+            if t.callee is not None and t.callee.path in ("std::option::Option::<T>::unwrap_or_else", "std::option::Option::<T>::unwrap_or") and len(t.args) > 1:
+                g = _time_provider(w, w.sym.of_operand(b, t.args[1]))
+                if g is not None:
+                    now_fns.add(g.path)
     for nf in sorted(now_fns):
         lf = prog.fns[nf]
         t = w.sym.of_place(lf.body, 0, ())
@@ -73,6 +74,25 @@ def check_config(cfg, w, rep):
                           loc=lf.body.loc(), config=cfg, rule="default-time")
     if not now_fns:
         rep.violation("anchor:now", "ANCHOR-MISSING: no default-time function found in the index inserts", config=cfg, rule="anchor-floor")
+
+
+def _time_provider(w, t):
+    """The default-time provider passed to unwrap_or_else: a fn item, or a closure that just calls one. Returns the
+    logical function that computes the default."""
+    prog = w.prog
+    if t[0] == "fn":
+        return prog.fns.get(t[1])
+    if t[0] == "agg":
+        cb = prog.by_path.get(t[1])
+        if cb is not None:
+            rt = w.sym.of_place(cb, 0, ())
+            if rt[0] == "call" and rt[1] in prog.fns and not rt[2]:
+                return prog.fns[rt[1]]
+            if rt[0] == "call" and rt[1] == "std::time::Duration::as_millis":
+                return prog.owner_fn(cb)
+    if t[0] == "call" and t[1] in prog.fns and not t[2]:
+        return prog.fns[t[1]]
+    return None
 
 
 def _opt_field(t, name):
@@ -118,7 +138,8 @@ def check_record_agg(cfg, w, rep, lf, rt):
     checks.append(("integrity", ok, "opts.sri.map(to_string)"))
     # time ← opts.time, else NOW()
     t = f["time"]
-    ok = t[0] == "call" and t[1] == "std::option::Option::<T>::unwrap_or_else" and _opt_field(t[2][0], "time") and t[2][1][0] == "fn"
+    ok = t[0] == "call" and t[1] in ("std::option::Option::<T>::unwrap_or_else", "std::option::Option::<T>::unwrap_or") and \
+        _opt_field(t[2][0], "time") and _time_provider(w, t[2][1]) is not None
     checks.append(("time", ok, "opts.time.unwrap_or_else(now)"))
     # size ← opts.size, else 0 (commits always pass Some: checked separately)
     t = f["size"]
